@@ -4,19 +4,19 @@
 From Verif Require Import Base.Bytes Store.GraphCount Store.GraphWalk Store.Model Store.ProofsRows Store.ProofsHash.
 Local Open Scope N_scope.
 
-(* requests as they can arrive over NATS: subject tokens are non-empty, "none" is a reserved id *)
+(* requests as they can arrive over NATS: subject tokens are non-empty *)
 Definition op_ok (o : op) : Prop :=
   match o with
   | NodePts _ _ => True
-  | EdgePts id par _ => par <> [] /\ id <> str_none
+  | EdgePts id par _ => par <> []
   end.
 
 (* ---------- one request keeps the store well formed and the hash equation valid ---------- *)
 Lemma edge_points_inv st id par pts st' :
-  wf st -> Inv st -> par <> [] -> id <> str_none ->
+  wf st -> Inv st -> par <> [] ->
   edge_points st id par pts = Ok st' -> wf st' /\ Inv st'.
 Proof.
-  intros W HI Hpar Hid. unfold edge_points.
+  intros W HI Hpar. unfold edge_points.
   destruct (has_nan pts); [discriminate|].
   destruct (bytes_eqb id par) eqn:Eself; [discriminate|].
   destruct (bytes_eqb id (s_root st) && existsb _ (collapse pts)); [discriminate|].
@@ -35,7 +35,6 @@ Proof.
     rewrite xor_crcs_nil, N.lxor_0_l in Hdelta. subst d.
     apply (edge_points_new_inv st id par (c :: nt) rows W HI).
     + intros ->. rewrite bytes_eqb_refl in Eself. discriminate.
-    + exact Hid.
     + exact Ef.
     + exact Eup.
 Qed.
@@ -50,7 +49,7 @@ Proof.
   intros W HI Hok. destruct o as [id pts|id par pts]; cbn [handle].
   - destruct (node_points st id pts) as [st'|e] eqn:E; cbn; [|auto].
     eapply node_points_inv; eassumption.
-  - destruct Hok as [Hp Hi]. destruct (edge_points st id par pts) as [st'|e] eqn:E; cbn; [|auto].
+  - pose proof Hok as Hp. cbn [op_ok] in Hp. destruct (edge_points st id par pts) as [st'|e] eqn:E; cbn; [|auto].
     eapply edge_points_inv; eassumption.
 Qed.
 
@@ -136,7 +135,7 @@ Qed.
 Theorem total_visits st x F : wf st -> (fuel_of (s_edges st) <= F)%nat ->
   visits (s_edges st) (S F) x = visits (s_edges st) F x.
 Proof.
-  intros W HF. rewrite !(visits_generic _ (wf_none _ W)).
+  intros W HF. rewrite !visits_generic.
   apply (GraphWalk.fuel_adequate bytes bytes_eqb bytes_eqb_eq edge e_id e_up e_down _ (wf_ids _ W)).
   - exact (wf_acyclic _ W).
   - unfold fuel_of in HF. lia.
@@ -145,24 +144,22 @@ Qed.
 (* ---------- C06: the recursive publishers reach exactly the upward closure ---------- *)
 Definition sel_of (include_deleted : bool) (e : edge) : bool := include_deleted || edge_live e.
 
-Lemma pubs_reach G incl : (forall e, In e G -> e_down e <> str_none) ->
+Lemma pubs_reach G incl :
   forall f x, pubs G incl f x = greach G (sel_of incl) f x.
 Proof.
-  intros Hn. induction f as [|f IH]; intros x; cbn [pubs GraphWalk.reach]; [reflexivity|]. f_equal.
+  induction f as [|f IH]; intros x; cbn [pubs GraphWalk.reach]; [reflexivity|]. f_equal.
   assert (Hps : GraphWalk.psel bytes bytes_eqb edge e_down G (sel_of incl) x = filter (sel_of incl) (parents G x)).
   { unfold GraphWalk.psel, parents. clear. induction G as [|e G IH]; [reflexivity|]. cbn [filter].
     destruct (bytes_eqb (e_down e) x); cbn [andb filter]; [destruct (sel_of incl e)|]; rewrite IH; reflexivity. }
-  rewrite Hps. destruct (bytes_eqb x str_none) eqn:E.
-  - apply bytes_eqb_eq in E. subst x. rewrite (parents_none_nil G Hn). reflexivity.
-  - unfold ups. rewrite flat_map_concat_map, map_map, <- flat_map_concat_map.
-    apply flat_map_ext. intros e. apply IH.
+  rewrite Hps. unfold ups. rewrite flat_map_concat_map, map_map, <- flat_map_concat_map.
+  apply flat_map_ext. intros e. apply IH.
 Qed.
 
 Theorem pubs_exact st incl x a : wf st ->
   (In a (pubs (s_edges st) incl (fuel_of (s_edges st)) x) <->
    exists l, gswalk (s_edges st) (sel_of incl) x l /\ gendpoint x l = a).
 Proof.
-  intros W. rewrite (pubs_reach _ incl (wf_none _ W)).
+  intros W. rewrite (pubs_reach _ incl).
   apply (GraphWalk.reach_exact_acyclic bytes bytes_eqb bytes_eqb_eq edge e_id e_up e_down _ (wf_ids _ W)).
   - exact (wf_acyclic _ W).
   - unfold fuel_of. lia.
@@ -298,7 +295,7 @@ Proof.
   intros E. inversion E; subst st'; clear E. cbn [s_edges].
   destruct (find_edge_spec _ _ _ _ Hf) as (He & Hu & Hd).
   set (e1 := mkEdge (e_id e) (e_up e) (e_down e) (e_type e) rows (e_hash e)).
-  exists (toggle (e_id e :: (if bytes_eqb par str_none then [] else visits (set_edge (s_edges st) e1) (fuel_of (set_edge (s_edges st) e1)) par)) d e1).
+  exists (toggle (e_id e :: visits (set_edge (s_edges st) e1) (fuel_of (set_edge (s_edges st) e1)) par) d e1).
   rewrite toggle_id, toggle_up, toggle_down, toggle_pts. cbn [e_id e_up e_down e_pts e1].
   repeat split; auto.
   - unfold update_edge_hash. apply in_map. unfold set_edge. apply in_map_iff. exists e. split; [|exact He].
@@ -351,7 +348,6 @@ Proof.
   - constructor.
   - intros e [].
   - intros x l Hne Hw. destruct l as [|e l]; [contradiction|]. destruct Hw as ([] & _).
-  - intros e [].
 Qed.
 
 Lemma inv_st0 : Inv st0.
@@ -531,7 +527,7 @@ Proof.
     + rewrite (IH st' par id t k W' HI' (node_points_edges_ok _ _ _ _ HO E) Hoks).
       rewrite (node_points_edge_rows _ _ _ _ par id E). reflexivity.
     + apply IH; assumption.
-  - destruct Ho as [Hp Hi]. destruct (edge_points st i p pts) as [st'|e] eqn:E; cbn [state_of reply_of fst snd] in *.
+  - pose proof Ho as Hp. cbn [op_ok] in Hp. destruct (edge_points st i p pts) as [st'|e] eqn:E; cbn [state_of reply_of fst snd] in *.
     + destruct (edge_points_edge_rows st i p pts st' W HO Hp E) as (Hsame & Hother & HO').
       rewrite (IH st' par id t k W' HI' HO' Hoks). f_equal. cbn [N.eqb andb].
       destruct (bytes_eqb i id && bytes_eqb p par) eqn:Eip.
